@@ -318,6 +318,42 @@ Theorem C09_delete_subject_and_entry_refuted :
 Proof. exact delete_subject_and_entry. Qed.
 Print Assumptions C09_delete_subject_and_entry_refuted.
 
+(* ---- end to end ---- *)
+
+(* the outcome of Delete (AutoGC) and of GC does not depend on Go's map iteration orders *)
+Theorem C09_order_independent :
+  forall succ subject manifest, acyclic succ -> subject_listed succ subject ->
+  (forall st x, wf st -> autogc st = true -> In x (blobs st) ->
+     forall o1 o2, reorders o1 -> reorders o2 ->
+     let a := fst (delete succ subject manifest cfg_fixed o1 st x) in
+     let b := fst (delete succ subject manifest cfg_fixed o2 st x) in
+     (forall y, In y (blobs a) <-> In y (blobs b)) /\ (forall y, In y (gnodes a) <-> In y (gnodes b)) /\
+     (forall t n, In (RTag t, n) (idx a) <-> In (RTag t, n) (idx b))) /\
+  (forall kl st o1 o2, same_elements o1 (candidates (idx st)) -> same_elements o2 (candidates (idx st)) ->
+     let a := fst (gc succ subject manifest cfg_fixed kl o1 st) in
+     let b := fst (gc succ subject manifest cfg_fixed kl o2 st) in
+     (forall y, In y (blobs a) <-> In y (blobs b)) /\ (forall y, In y (gnodes a) <-> In y (gnodes b)) /\
+     (forall t n, In (RTag t, n) (idx a) <-> In (RTag t, n) (idx b))).
+Proof. exact order_independent_final. Qed.
+Print Assumptions C09_order_independent.
+
+(* "keep live data": a stored descriptor that carries a tag survives, with its tag, every
+   Delete of another descriptor (AutoGC on or off, target stored or not, every iteration
+   order) and, with everything reachable from it, every GC -- complete or cancelled *)
+Theorem C09_tagged_kept :
+  forall succ subject manifest, acyclic succ -> subject_listed succ subject ->
+  forall st n t, wf st -> In (RTag t, n) (idx st) -> In n (blobs st) ->
+  (forall x ord, reorders ord -> x <> n ->
+     let st' := fst (delete succ subject manifest cfg_fixed ord st x) in
+     In n (blobs st') /\ In (RTag t, n) (idx st')) /\
+  (forall kl ords order k, same_elements ords (candidates (idx st)) ->
+     let s1 := fst (gc succ subject manifest cfg_fixed kl ords st) in
+     let s2 := fst (gc_cancel succ subject manifest cfg_fixed kl ords order k st) in
+     forall y, Reach succ (blobs st) n y ->
+       In y (blobs s1) /\ In y (blobs s2) /\ In (RTag t, n) (idx s1) /\ In (RTag t, n) (idx s2)).
+Proof. exact tagged_kept_final. Qed.
+Print Assumptions C09_tagged_kept.
+
 (* ---- persistence: index.json, AutoSaveIndex, SaveIndex, a new Store on the directory ---- *)
 
 (* The order of effects the persistence model relies on, read off the call sequences that the
